@@ -909,6 +909,16 @@ func (fr *Frame) loopEnv(lc *loopCtx, st *St, phiVals map[*ssa.Phi]Val) *Env {
 	for g, t := range lc.entry {
 		env.Vars["entry_"+g] = t
 	}
+	var intPhis []Term
+	defer func() {
+		// "iter" = number of completed iterations: ri+1 for a range loop; for a loop written with an explicit index
+		// (for i := 0; i < n; i++) it is the single integer loop variable, so that a range loop may be rewritten as an
+		// index loop (and back) under the same invariants. If the index does not start at 0 or step by 1 the invariants fail.
+		if _, ok := env.Vars["iter"]; !ok && len(intPhis) == 1 {
+			env.Vars["iter"] = intPhis[0]
+			env.Vars["ri"] = Term{"(- " + intPhis[0].S + " 1)", "Int"}
+		}
+	}()
 	for phi, v := range phiVals {
 		t, ok := v.(Term)
 		if !ok {
@@ -920,6 +930,9 @@ func (fr *Frame) loopEnv(lc *loopCtx, st *St, phiVals map[*ssa.Phi]Val) *Env {
 		} else if phi.Comment != "" {
 			env.Vars[phi.Comment] = t
 		}
+		if t.Sort == "Int" && phi.Comment != "rangeindex" {
+			intPhis = append(intPhis, t)
+		}
 		env.Vars[phi.Name()] = t
 	}
 	return env
@@ -928,6 +941,9 @@ func (fr *Frame) loopEnv(lc *loopCtx, st *St, phiVals map[*ssa.Phi]Val) *Env {
 // baseEnv binds parameters (via names), named locals, cells and state components.
 func (fr *Frame) baseEnv(st *St, names map[string]Val, cellNames map[string]*Cell) *Env {
 	env := &Env{Vars: map[string]Term{}, P: fr.ex.P, Old: fr.oldEnv}
+	if fr.contract != nil {
+		env.Ren = fr.contract.Ren
+	}
 	for k, v := range names {
 		fr.bindName(env, k, v, st)
 	}
